@@ -130,6 +130,34 @@ pub fn update_case(name: &'static str, input: Shape, block: Vec<L>, loops: usize
     }
 }
 
+/// Overflow: the accumulated value of a coupled group may be infinite although every copy is finite — the copies must
+/// still agree (all of them hold that infinite value). Float32 only, any finite weights and gradients.
+pub fn overflow_case(acc: Acc) -> Case {
+    Case {
+        id: format!("C10/update-overflow/dense1-nobias/loops2/{}/sgd", acc.name()),
+        property: "C10",
+        family: "Feedback::update",
+        class: format!("update-{}", acc.name()),
+        no_ties: false,
+        max_paths: 256,
+        run: Box::new(move |ctx| {
+            ctx.extreme_values();
+            let block = vec![L::Dense(1, Act::Linear, false)];
+            let mut net = build_net(Shape::Single(1), &[L::Feedback(block, 2, false, false, acc)]);
+            symbolize_feedback(ctx, &mut net.layers[0], 1, "B");
+            net.set_optimizer(Opt::SGD.build());
+            let (mut wg, mut bg) = match &net.layers[0] {
+                Layer::Feedback(f) => nested_gradients(ctx, f, "s0"),
+                _ => unreachable!(),
+            };
+            if let Layer::Feedback(f) = &mut net.layers[0] {
+                f.update(1, &mut wg, &mut bg);
+            }
+            check_tied(ctx, "step0", &net.layers[0], 1);
+        }),
+    }
+}
+
 /// 1–2 epochs of `learn` (real optimizer): the copies are still identical afterwards
 pub fn learn_case(name: &'static str, input: Shape, block: Vec<L>, loops: usize, acc: Acc, opt: Opt, batch: usize, epochs: usize) -> Case {
     Case {
@@ -205,6 +233,8 @@ pub fn cases(tier: Tier, seed: u64) -> Vec<Case> {
             out.push(update_case(name, input.clone(), block.clone(), loops, Acc::Add, Opt::SGD, 0));
         }
     }
+    out.push(overflow_case(Acc::Add));
+    out.push(overflow_case(Acc::Multiply));
     out.push(update_case("dense5-dense4-dense3-mixed-bias", Shape::Single(3), vec![L::Dense(5, Linear, true), L::Dense(4, Linear, false), L::Dense(3, Linear, true)], 2, Acc::Mean, Opt::SGD, if full { 2 } else { 1 }));
     for (name, input, block) in blocks.iter() {
         for (acc, opt, batch, epochs) in [(Acc::Mean, Opt::SGD, 1, 1), (Acc::Mean, Opt::Adam, 2, 2), (Acc::Add, Opt::SGDM, 2, 1)] {
